@@ -319,6 +319,65 @@ func c13Readers(writer string, bound int) vh.Unit {
 	}}
 }
 
+// concurrent writers: what is on disk after overlapping acknowledged operations is what some
+// one-at-a-time order of them leaves (no orphan or half-migrated keys), key by key
+func c13Writers(scen string, bound int) vh.Unit {
+	name := "concurrent-writers/" + scen
+	ops := map[string][]string{
+		"credit-vs-link":         {"addnb a 5", "link W1 a"},
+		"credit-vs-link-vs-acct": {"addnb a 5", "link W1 a", "addab W1 3"},
+		"two-links":              {"link W1 a", "link W2 a"},
+		"link-vs-reregister":     {"link W1 a", "set a hp"},
+		"peers-vs-reregister":    {"upd a b 9", "set a hp"},
+	}[scen]
+	run := func(perm []int) string {
+		vsched.ResetClock(0)
+		st := vh.NewStore(vh.Badger)
+		for _, op := range []string{"set a hg", "set b cl", "addnb a 40", "addab W1 2", "upd a b 1"} {
+			vh.ApplyStoreOp(st, op)
+		}
+		res := make([]string, len(ops))
+		if perm != nil {
+			for _, i := range perm {
+				res[i] = vh.ApplyStoreOp(st, ops[i])
+			}
+		} else {
+			var fns []func()
+			for i := range ops {
+				i := i
+				fns = append(fns, func() { res[i] = vh.ApplyStoreOp(st, ops[i]) })
+			}
+			vh.Par(ops, fns...)
+		}
+		return fmt.Sprint(res) + "\n" + vh.BadgerDump(st)
+	}
+	return vh.Unit{Name: name, Run: func(u *vh.U) {
+		vsched.SetVirtualClock(true)
+		allowed := map[string]bool{}
+		for _, perm := range permutations(len(ops)) {
+			allowed[run(perm)] = true
+		}
+		var got string
+		vh.RunDFS(u, vh.DFSSpec{
+			Name: name, Bound: bound,
+			Run:  vsched.Options{YieldFiles: []string{"badger.go", "helpers.go"}, Delay: len(ops) > 2},
+			Body: func() { got = run(nil) },
+			Obs:  func(s *vsched.Sched) string { return vh.Hash(got) },
+			Check: func(s *vsched.Sched) (string, string) {
+				if allowed[got] {
+					return "", ""
+				}
+				var al []string
+				for k := range allowed {
+					al = append(al, k)
+				}
+				sort.Strings(al)
+				return "writers/" + scen, fmt.Sprintf("concurrently %v -> results and database\n%s\nwhich no order of the same calls leaves behind; serial outcomes:\n%s", ops, got, strings.Join(al, "\n--\n"))
+			},
+		})
+	}}
+}
+
 // migration of older formats, and reopening a current database
 func c13Migration() vh.Unit {
 	return vh.Unit{Name: "migration", Run: func(u *vh.U) {
@@ -529,6 +588,9 @@ func init() {
 				bound = 3
 			}
 			us = append(us, c13Readers("link W1 a", bound), c13Readers("upd a b 9", bound), c13Migration(), c13ModelValidation())
+			for _, scen := range []string{"credit-vs-link", "credit-vs-link-vs-acct", "two-links", "link-vs-reregister", "peers-vs-reregister"} {
+				us = append(us, c13Writers(scen, bound))
+			}
 			return us
 		},
 	})
